@@ -212,13 +212,13 @@ let () =
    IP/IQ n e..  (each e = off idx op len raw low) ; IU off op charslen dotslen nofor noback (rule objects) ;
    IX used  ->  "I total allocs refs fwd back chars cells fpass bpass rules_linked" *)
 let im_allocs = ref [] and im_refs = ref [] and im_fwd = ref [] and im_back = ref []
-and im_chars = ref [] and im_cells = ref [] and im_fpass = ref [] and im_bpass = ref [] and im_rules = ref []
+and im_chars = ref [] and im_cells = ref [] and im_fpass = ref [] and im_bpass = ref [] and im_rules = ref [] and im_bounds = ref []
 let rec elems = function
   | a :: b :: c :: d :: e :: f :: r ->
     { c_off = z_of_int a; c_idx = z_of_int b; c_op = z_of_int c; c_len = z_of_int d; c_raw = z_of_int e; c_low = z_of_int f } :: elems r
   | _ -> []
 let () =
-  reg "IN" (fun _ -> im_allocs := []; im_refs := []; im_fwd := []; im_back := []; im_chars := []; im_cells := []; im_fpass := []; im_bpass := []; im_rules := []; None);
+  reg "IN" (fun _ -> im_allocs := []; im_refs := []; im_fwd := []; im_back := []; im_chars := []; im_cells := []; im_fpass := []; im_bpass := []; im_rules := []; im_bounds := []; None);
   reg "IA" (fun ws -> (match ints ws with [ o; s ] -> im_allocs := { a_off = z_of_int o; a_size = z_of_int s } :: !im_allocs | _ -> failwith "IA"); None);
   reg "IR" (fun ws -> (match ints ws with [ t; n; k ] -> im_refs := { r_target = z_of_int t; r_need = z_of_int n; r_nullok = (k = 1) } :: !im_refs | _ -> failwith "IR"); None);
   reg "IF" (fun ws -> (match ints ws with h :: r -> im_fwd := (z_of_int h, elems r) :: !im_fwd | _ -> failwith "IF"); None);
@@ -230,6 +230,7 @@ let () =
   reg "IU" (fun ws -> (match ints ws with [ o; op; cl; dl; nf; nb ] ->
       im_rules := { ri_off = z_of_int o; ri_op = z_of_int op; ri_chars = z_of_int cl; ri_dots = z_of_int dl; ri_nofor = (nf <> 0); ri_noback = (nb <> 0) } :: !im_rules
                                           | _ -> failwith "IU"); None);
+  reg "IV" (fun ws -> (match ints ws with [ v; b ] -> im_bounds := (z_of_int v, z_of_int b) :: !im_bounds | _ -> failwith "IV"); None);
   reg "IX" (fun ws -> match ints ws with
       | [ used ] ->
         let al = List.rev !im_allocs in
@@ -247,7 +248,8 @@ let () =
             all (record_ok m (fun _ _ -> false)) !im_cells;
             all (pass_ok m fpass_before) !im_fpass;
             all (pass_ok m bpass_before) !im_bpass;
-            rules_linked i !im_rules ]))
+            rules_linked i !im_rules;
+            bounds_ok !im_bounds ]))
       | _ -> failwith "IX")
 
 (* ---- reader:  RL b b b ..  (file bytes) -> "L | hex .. | hex .. | lines=n" ; RD token chars ; RP token chars *)
